@@ -145,12 +145,19 @@ LOWP_NAMES = ['acc', 'top1', 'top2', 'top0', 'sta_a', 'sta_b', 'sta_c', 'sttk_a'
               'oov_b', 'len_a', 'cm', 'pd_acc', 'pd_sta_pp', 'pd_stc', 'pd_cm']
 # a second Model built from the SAME apply function and the SAME eval_metrics keys as 'plain' but other hyper-parameters
 PLAIN2_NAMES = ['q_acc', 'q_ce', 'q_top2', 'q_cm', 'q_pd_acc']
-NAMES = {'dict': None, 'plain': PLAIN_NAMES, 'plain2': PLAIN2_NAMES, 'pdpp': ['pd_sta_pp4'], 'pdw': ['pdw_u8', 'pdw_i8']}
+# twin Models of 'plain' differing in exactly ONE field: one metric object under an unchanged name (constructor),
+# apply_for_eval (replace), train_loss (replace); 'plain2' differs in several metric objects (replace)
+PLAIN3_NAMES = ['r_acc', 'r_ce', 'r_top2', 'r_cm', 'r_pd_acc']
+PLAINNEG_NAMES = ['n_acc', 'n_ce', 'n_top2', 'n_cm', 'n_pd_acc']
+PLAINLOSS_NAMES = ['l_acc', 'l_ce', 'l_top2', 'l_cm', 'l_pd_acc']
+TWINS = ['plain', 'plain2', 'plain3', 'plainneg', 'plainloss']
+NAMES = {'dict': None, 'plain': PLAIN_NAMES, 'plain2': PLAIN2_NAMES, 'plain3': PLAIN3_NAMES, 'plainneg': PLAINNEG_NAMES,
+         'plainloss': PLAINLOSS_NAMES, 'pdpp': ['pd_sta_pp4'], 'pdw': ['pdw_u8', 'pdw_i8']}
 
 
 def _mkey(which, name):
-  """Key of the metric in the Model's eval_metrics."""
-  return 'p_' + name[2:] if which == 'plain2' else name
+  """Key of the metric in the Model's eval_metrics: the twins all use the names of 'plain'."""
+  return 'p_' + name[2:] if which in ('plain2', 'plain3', 'plainneg', 'plainloss') else name
 
 _STATE = {}
 CFG_KEYS = ('pool_seed', 'api', 'batches', 'model', 'form', 'cform', 'idtype', 'maskdt', 'arr', 'kw', 'ctx', 'pool', 'again', 'forder', 'nf', 'layout', 'bkind', 'pkind')
@@ -191,20 +198,34 @@ def _setup():
   def apply_plain(params, batch):
     del params
     return batch['pred']
-  _STATE['grid'] = {'dict': grid, 'plain': plain, 'plain2': plain2, 'pdpp': pdpp, 'pdw': pdw}
-  _STATE['apply'] = {'dict': apply_dict, 'plain': apply_plain, 'plain2': apply_plain, 'pdpp': apply_dict, 'pdw': apply_dict}
+  def apply_neg(params, batch):
+    del params
+    return -batch['pred']
+
+  plain3 = {'r' + k[1:]: v for k, v in plain.items()}
+  plain3['r_top2'] = (M.TopKAccuracy(3), 'int')                      # exactly one metric object differs
+  plainneg = {'n' + k[1:]: v for k, v in plain.items()}             # same metric objects, other apply_for_eval
+  plainloss = {'l' + k[1:]: v for k, v in plain.items()}            # same metric objects, other train_loss
+  _STATE['grid'] = {'dict': grid, 'plain': plain, 'plain2': plain2, 'plain3': plain3, 'plainneg': plainneg,
+                    'plainloss': plainloss, 'pdpp': pdpp, 'pdw': pdw}
+  _STATE['apply'] = {'dict': apply_dict, 'plain': apply_plain, 'plain2': apply_plain, 'plain3': apply_plain,
+                     'plainneg': apply_neg, 'plainloss': apply_plain, 'pdpp': apply_dict, 'pdw': apply_dict}
   _STATE['model'] = {
       'dict': fedjax.Model(init=None, apply_for_train=None, apply_for_eval=apply_dict, train_loss=None,
                            eval_metrics={k: m for k, (m, _) in grid.items()}),
       'plain': fedjax.Model(init=None, apply_for_train=None, apply_for_eval=apply_plain, train_loss=None,
                             eval_metrics={k: m for k, (m, _) in plain.items()}),
-      'plain2': fedjax.Model(init=None, apply_for_train=None, apply_for_eval=apply_plain, train_loss=None,
-                             eval_metrics={_mkey('plain2', k): m for k, (m, _) in plain2.items()}),
+      'plain3': fedjax.Model(init=None, apply_for_train=None, apply_for_eval=apply_plain, train_loss=None,
+                             eval_metrics={_mkey('plain3', k): m for k, (m, _) in plain3.items()}),
       'pdpp': fedjax.Model(init=None, apply_for_train=None, apply_for_eval=apply_dict, train_loss=None,
                            eval_metrics={k: m for k, (m, _) in pdpp.items()}),
       'pdw': fedjax.Model(init=None, apply_for_train=None, apply_for_eval=apply_dict, train_loss=None,
                           eval_metrics={k: m for k, (m, _) in pdw.items()}),
   }
+  base = _STATE['model']['plain']
+  _STATE['model']['plain2'] = base.replace(eval_metrics={_mkey('plain2', k): m for k, (m, _) in plain2.items()})
+  _STATE['model']['plainneg'] = base.replace(apply_for_eval=apply_neg)
+  _STATE['model']['plainloss'] = base.replace(train_loss=lambda batch, out: out)
   _STATE['kept'] = None
   _STATE['evaluator'] = {}
   _STATE['pools'] = {}
@@ -275,7 +296,7 @@ def pool_stats(seed, variant='std'):
     return st['pools'][(seed, variant)]
   pool = make_pool(seed, variant)
   out = {'pool': pool}
-  for which in ('dict', 'plain', 'plain2', 'pdpp', 'pdw'):
+  for which in ('dict', 'plain', 'plain2', 'plain3', 'plainneg', 'plainloss', 'pdpp', 'pdw'):
     pred = st['apply'][which](None, pool)
     for name, (metric, _) in st['grid'][which].items():
       try:
@@ -390,6 +411,14 @@ def configs(tier, rng):
     if cfg['model'] != 'dict' and i % 2 == 0:
       cfg['ctx'] = 'nojit'                         # jax.disable_jit() around the whole call (small models only: eager is slow)
     out.append(cfg)
+  # twin Models (same functions and metric NAMES, one field different) evaluated one after the other on the SAME
+  # batches through the jitted entry points that take the Model as a static argument
+  for i in range({'quick': 2, 'thorough': 10, 'search': 10}.get(tier, 2)):
+    b = gen_batches(rng, rng.randrange(3, 9), sizes=(4, 2))
+    api = ['evaluate_model', 'evaluator_global', 'evaluator_per_client'][i % 3]
+    order = TWINS + ['plain'] if i % 2 == 0 else ['plain2', 'plain', 'plainneg', 'plain3', 'plainloss', 'plain2']
+    for j, which in enumerate(order):
+      out.append({'pool_seed': seeds[0], 'api': api, 'batches': b, 'model': which, 'form': 'list', 'again': 100 * i + j})
   # non-finite statistics on REAL rows: padded / unpadded / differently batched evaluations must agree on them
   for i in range({'quick': 3, 'thorough': 40, 'search': 40}.get(tier, 3)):
     out.append({'pool_seed': seeds[0], 'api': ['evaluate_model', 'evaluator_global', 'evaluate_batch'][i % 3],
@@ -688,7 +717,8 @@ def _run_config(cfg):
   st['n_configs'] = st.get('n_configs', 0) + 1
   if st['n_configs'] % 250 == 0:
     jax.clear_caches()
-    st.pop('merge_fn_dict', None); st.pop('merge_fn_plain', None); st.pop('merge_fn_plain2', None)
+    for k_ in [k_ for k_ in st if k_.startswith('merge_fn_')]:
+      st.pop(k_)
   variant = cfg.get('pool', 'std')
   ps = pool_stats(cfg['pool_seed'], variant)
   pool = ps['pool']
